@@ -8,7 +8,8 @@ from . import common
 
 META = {
     "technique": "Lean 4 proof over a table-generic model of mj_stateSize/getState/setState/extractState/copyState "
-                 "(all signatures, error branches included) + translator-regenerated state table proved well-formed "
+                 "(all signatures, error branches included) and of the keyframe copies of mj_resetDataKeyframe / mj_setKeyframe "
+                 "(all indices, arbitrary key_* contents) + translator-regenerated state and keyframe tables proved well-formed "
                  "+ exact differential correspondence with the real API on mjSpec-built models + round-trip/reset/keyframe oracle",
     "text": "For every well-formed table (distinct bits, distinct mjData fields, size expression = allocated dimension of the "
             "field, one case per bit below mjNSTATE) and every signature sig:Int (not enumerated): stateSize = length written "
@@ -20,13 +21,28 @@ META = {
             "mjdata.h on every run (sizes compared as normal forms, valid for all model sizes). The five loop bodies are tied "
             "to the hand-written generic model by a strict template match in the translator and by an exact differential run "
             "(sizes and vectors) on models with free/ball/slide/hinge joints, stateful actuators, history buffers, mocap "
-            "bodies, equalities and userdata.",
-    "note": "mj_resetData / mj_resetDataKeyframe are NOT modelled in Lean: they are decided by the oracle only (reset vs a fresh "
-            "mj_makeData on every state field and the whole buffer, and vs the documented defaults; keyframe vs the model's "
-            "key_* arrays). npluginstate is always 0 in generated models (plugin-less build), so mjSTATE_PLUGIN is exercised "
+            "bodies, equalities and userdata. "
+            "Keyframes: mj_resetDataKeyframe is modelled as `_resetData` (result = arbitrary parameter) followed, for 0 <= key < nkey, "
+            "by the list of copies regenerated from its body; mj_setKeyframe as its two guards + the mirrored list. For every "
+            "well-formed keyframe table, all model sizes, ARBITRARY contents of the key_* arrays (no unit-norm or range assumption: "
+            "run-time keyframes the compiler would never produce are covered) and every key:Int: the load returns normally, every "
+            "keyframe field equals row `key` of its array entry for entry, every other field is what _resetData left; an index "
+            "outside [0,nkey) is a plain reset; setKeyframe stores exactly the state into row k and touches no other row/array; "
+            "setKeyframe followed by resetDataKeyframe is lossless. generated_keytable_wf proves the hypothesis for the lists "
+            "regenerated from engine_io.c / engine_support.c / MJMODEL_POINTERS; the translator refuses any statement in either body "
+            "that is not a plain copy (post-processing such as normalising or clamping cannot hide) and checks that mj_resetData is "
+            "timing diagnostics + the same _resetData(m, d, 0). Differential: keyfill/keyput (direct edits of m->key_*, incl. zero and "
+            "non-unit quaternions), setkey, loadkey with valid and invalid indices, Lean model vs real engine, exact.",
+    "note": "`_resetData` is NOT modelled in Lean: mj_resetData is decided by the oracle only (reset vs a fresh mj_makeData on every "
+            "state field, the header members and the whole buffer, and vs the documented defaults), and the non-keyframe fields after "
+            "mj_resetDataKeyframe are compared with a fresh mjData by the oracle/differential (`rest=1`). The oracle's keyframe clause "
+            "uses the hand-written documented map key_* -> field (KEYSPEC) on compiled keyframes, on keyframes edited in place "
+            "(zero / non-unit / tiny / huge / near-unit / unit quaternions at the real quaternion addresses) and on keyframes saved "
+            "with mj_setKeyframe from such states; mj_setKeyframe is treated as part of the clause (the saved keyframe must be the "
+            "state). npluginstate is always 0 in generated models (plugin-less build), so mjSTATE_PLUGIN is exercised "
             "only as an empty component. State vectors are modelled as lists (adr arithmetic is covered by the correspondence); "
-            "values are integers in the differential run. The documented element->field map used by the oracle is hand-written "
-            "(SPEC in checks/c26.py).",
+            "values are integers in the differential run (NaN/inf/-0 are not generated anywhere). The documented element->field map "
+            "used by the oracle is hand-written (SPEC, KEYSPEC in checks/c26.py).",
 }
 
 THEOREMS = [
@@ -44,12 +60,23 @@ THEOREMS = [
     "MjProof.C26.sig_outside_table_error",
     "MjProof.C26.getState_total",
 ]
+# keyframe clause: generic over any keyframe table (lists of copies of mj_resetDataKeyframe / mj_setKeyframe)
+THEOREMS_KEY = [
+    "MjProof.C26.key_load_exact",
+    "MjProof.C26.key_invalid_is_reset",
+    "MjProof.C26.key_set_stores_state",
+    "MjProof.C26.key_set_errors",
+    "MjProof.C26.key_set_load_roundtrip",
+]
 # about the regenerated table; kept in a separate module so that a source change breaking the
 # table's well-formedness shows up as exactly these obligations
 THEOREMS_GEN = [
     "MjProof.C26.generated_table_wf",
     "MjProof.C26.gen_size_eq_length_getState",
     "MjProof.C26.gen_copy_eq_set_get",
+    "MjProof.C26.generated_keytable_wf",
+    "MjProof.C26.gen_key_load_exact",
+    "MjProof.C26.gen_key_set_load_roundtrip",
 ]
 
 GEN_DIR = os.path.join(common.LEAN, "MjProof", "Gen")
@@ -75,6 +102,13 @@ SPEC = [
     ("mjSTATE_USERDATA", "userdata", lambda s: s["nuserdata"]),
     ("mjSTATE_PLUGIN", "plugin_state", lambda s: s["npluginstate"]),
 ]
+# Documented meaning of the model's keyframe arrays (include/mujoco/mjmodel.h: "key_qpos: key position (nkey x nq)" ...):
+# key_* array -> mjData field it is loaded into.  Hand-written, used by the oracle only (independent of the translator).
+KEYSPEC = [("key_time", "time"), ("key_qpos", "qpos"), ("key_qvel", "qvel"), ("key_act", "act"),
+           ("key_mpos", "mocap_pos"), ("key_mquat", "mocap_quat"), ("key_ctrl", "ctrl")]
+KEY_ARRAYS = [a for a, _ in KEYSPEC]
+KEY_ROW = {"key_time": lambda s: 1, "key_qpos": lambda s: s["nq"], "key_qvel": lambda s: s["nv"], "key_act": lambda s: s["na"],
+           "key_mpos": lambda s: 3 * s["nmocap"], "key_mquat": lambda s: 4 * s["nmocap"], "key_ctrl": lambda s: s["nu"]}
 SPEC_FIELD = {n: f for n, f, _ in SPEC}
 SPEC_SIZE = {n: z for n, _, z in SPEC}
 SIZE_NAMES = ["nq", "nv", "na", "nhistory", "nu", "nbody", "neq", "nmocap", "nuserdata", "npluginstate", "nkey"]
@@ -204,7 +238,7 @@ def diff_lines(ctx, mid, spec, sizes, info, fields, sigs, light):
     rng = ctx.rng
     nstate = info["nstate"]
     F = " ".join(fields)
-    L = ["model m%d %s ; %s" % (mid, " ".join("%s=%d" % (k, sizes[k]) for k in SIZE_NAMES if k != "nkey"), spec)]
+    L = ["model m%d %s ; %s" % (mid, " ".join("%s=%d" % (k, sizes[k]) for k in SIZE_NAMES), spec)]
     for k in range(4):
         L.append("fill %d %d %s" % (k, (k + 1) * 100000 + rng.randint(0, 9) * 17, F))
     L.append("dump 0 " + F)
@@ -234,6 +268,7 @@ def diff_lines(ctx, mid, spec, sizes, info, fields, sigs, light):
         L.append("copy %d %d %d" % (k1, k2, sig))
         if not light or cnt % 16 == 0:
             L.append("dump %d %s" % (k2, F))
+    L += key_diff_lines(ctx, sizes, info, fields, light)
     # error branches and malformed ops
     big = 1 << nstate
     for s in (-1, -2, -2147483648, big, big + 5, 2147483647, 1 << 20):
@@ -245,11 +280,83 @@ def diff_lines(ctx, mid, spec, sizes, info, fields, sigs, light):
     return L
 
 
-def oracle_lines(ctx, mid, spec, sizes, info, fields, sigs, nkey):
+def quat_like(rng, n, cls):
+    """integer-valued entries for one row of a key_* array / one mjData field (the differential run is on integers);
+    `zero`: all-zero (so every quaternion in it is the zero quaternion), `small`: |v| <= 3 (non-unit quaternions)"""
+    if cls == "zero":
+        return [0] * n
+    if cls == "small":
+        return [rng.randint(-3, 3) for _ in range(n)]
+    if cls == "unitish":
+        return [1 if i % 4 == 0 else 0 for i in range(n)]
+    return [rng.randint(-10 ** 6, 10 ** 6) for _ in range(n)]
+
+
+def key_diff_lines(ctx, sizes, info, fields, light):
+    """keyframe ops of the differential run: run-time keyframes (mj_setKeyframe from arbitrary data, direct edits of the
+    key_* arrays incl. zero / non-unit quaternions), valid and invalid indices, on the generated keyframe table"""
+    key = info.get("key")
+    if not key:
+        return []
+    rng = ctx.rng
+    nkey = sizes.get(key["nkey"], 0)
+    F = " ".join(fields)
+    KA = " ".join(key["arrays"])
+    LF = " ".join(dict.fromkeys(r["field"] for r in key["load"]))
+    hist = ctx.extra.setdefault("keyframe_diff_ops", {})
+
+    def cnt(k):
+        hist[k] = hist.get(k, 0) + 1
+
+    def rowlen(a):
+        n = 1
+        for k, v in key["kalloc"][a][1:]:
+            n *= v if k == "const" else sizes.get(v, 0)
+        return n
+
+    def idx_any():
+        r = rng.random()
+        if nkey and r < 0.8:
+            return rng.randrange(nkey)
+        return rng.choice([-1, nkey, nkey + 2, -2147483648, 2147483647, -7])
+    L = ["keyfill %d %s" % (rng.randint(1, 9) * 10000000, KA), "keydump " + KA]
+    n = (10 if light else 30) if ctx.tier == "quick" else (20 if light else 120)
+    for _ in range(n):
+        r = rng.random()
+        k = rng.randint(0, 3)
+        if r < 0.3:
+            # save a state: sometimes with zero / small (non-unit) values in every keyframe field first
+            c = rng.choice(["asis", "asis", "zero", "small", "unitish"])
+            if c != "asis":
+                for row in key["store"]:
+                    f = row["field"]
+                    if f == "time" or f not in fields:
+                        continue
+                    nn = 1
+                    for kk, v in info["alloc"][f]:
+                        nn *= v if kk == "const" else sizes.get(v, 0)
+                    e = next((e for e in info["elems"] if e["field"] == f), None)
+                    if e is not None and nn:
+                        L.append("set %d %d %s" % (k, 1 << e["bit"], " ".join(map(str, quat_like(rng, nn, c)))))
+            L += ["setkey %d %d" % (k, idx_any()), "keydump " + KA]
+            cnt("setkey:" + c)
+        elif r < 0.55 and nkey:
+            a = rng.choice(key["arrays"])
+            c = rng.choice(["zero", "small", "unitish", "big"])
+            L.append(("keyput %d %s %s" % (rng.randrange(nkey), a, " ".join(map(str, quat_like(rng, rowlen(a), c))))).strip())
+            cnt("keyput:" + c)
+        else:
+            L += ["loadkey %d %d %d %s ; %s" % (k, idx_any(), rng.randint(1, 90) * 100000, LF, F), "dump %d %s" % (k, F)]
+            cnt("loadkey")
+    L += ["keydump " + KA, "setkey 9 0", "setkey 0", "keyput 0 nosucharray 1", "keydump nosucharray", "loadkey 0 0 5 %s" % LF]
+    return L
+
+
+def oracle_lines(ctx, mid, spec, sizes, info, fields, sigs, nkey, heavy=False):
     rng = ctx.rng
     nstate = info["nstate"]
     F = " ".join(fields)
-    L = ["model m%d %s ; %s" % (mid, " ".join("%s=%d" % (k, sizes[k]) for k in SIZE_NAMES if k != "nkey"), spec), "minfo"]
+    L = ["model m%d %s ; %s" % (mid, " ".join("%s=%d" % (k, sizes[k]) for k in SIZE_NAMES), spec), "minfo"]
     for k in range(4):
         L.append("fill %d %d %s" % (k, (k + 1) * 100000 + rng.randint(0, 9) * 17, F))
     for i, sig in enumerate(sigs):
@@ -272,7 +379,70 @@ def oracle_lines(ctx, mid, spec, sizes, info, fields, sigs, nkey):
     L.append("reset 1 %d %s" % (rng.randint(1, 9) * 1000, F))
     for idx in list(range(nkey)) + [-1, nkey, nkey + 3]:
         L.append("key %d %d %d %s" % (rng.randint(0, 3), idx, rng.randint(1, 9) * 1000, F))
+    # zero quaternions through the state API (the fills above never produce them)
+    full = (1 << nstate) - 1
+    for f in ("qpos", "mocap_quat"):
+        if f in fields:
+            k1, k2, k3 = rng.sample(range(4), 3)
+            n = SPEC_SIZE["mjSTATE_" + {"qpos": "QPOS", "mocap_quat": "MOCAP_QUAT"}[f]](sizes)
+            if n:
+                L.append("put %d %s %s" % (k1, f, " ".join(["0"] * n)))
+                L.append("rt %d %d %d %s" % (k1, k2, full, F))
+                L.append("cp %d %d %d %d %s" % (k1, k2, k3, full, F))
+    # keyframes made at run time: the model compiler normalises / validates what it stores, the engine API does not
+    KA = " ".join(KEY_ARRAYS)
+    hist = ctx.extra.setdefault("keyframe_value_classes", {})
+    classes = ["zero", "nonunit", "tiny", "huge", "nearunit", "unit", "fill"]
+    reps = 3 if heavy else 1
+    for idx in range(nkey):
+        for cls in (classes * reps if (heavy or ctx.tier == "thorough") else rng.sample(classes[:5], 3) + rng.sample(classes[5:], 1)):
+            hist[cls] = hist.get(cls, 0) + 1
+            k1, k2 = rng.sample(range(4), 2)
+            if rng.random() < 0.5:
+                # direct edit of the model's key_* arrays, then load
+                for a, f in KEYSPEC:
+                    n = KEY_ROW[a](sizes)
+                    if n and (a in ("key_qpos", "key_mquat") or rng.random() < 0.3) and cls != "fill":
+                        L.append("keyput %d %s %s" % (idx, a, " ".join(key_values(rng, n, cls, sizes.get("quats") if a == "key_qpos" else None))))
+                L.append("key %d %d %d %s" % (k2, idx, rng.randint(1, 9) * 1000, F))
+            else:
+                # mj_setKeyframe from a state with such values, then load into another mjData
+                L.append("fill %d %d %s" % (k1, rng.randint(5, 90) * 100000, F))
+                if cls != "fill":
+                    for a, f in KEYSPEC:
+                        n = KEY_ROW[a](sizes)
+                        if n and f in fields and (f in ("qpos", "mocap_quat") or rng.random() < 0.3):
+                            L.append("put %d %s %s" % (k1, f, " ".join(key_values(rng, n, cls, sizes.get("quats") if f == "qpos" else None))))
+                L.append("krt %d %d %d %d %s ; %s" % (k1, k2, idx, rng.randint(1, 9) * 1000, F, KA))
+    for idx in (-1, nkey, nkey + 5, -2147483648):
+        L.append("krt 0 1 %d 3000 %s ; %s" % (idx, F, KA))
     return L
+
+
+def key_values(rng, n, cls, qadr=None):
+    """n entries for a keyframe row / data field; qadr: start addresses of the quaternions in it (default: every
+    aligned 4-block).  No NaN/inf/-0 (the harness prints integers as %lld, others as %.17g)."""
+    import math
+    if qadr is None:
+        qadr = range(0, n - 3, 4)
+    if cls == "zero":
+        v = [0.0] * n
+    elif cls == "nonunit":
+        v = [rng.uniform(-3, 3) for _ in range(n)]
+    elif cls == "tiny":
+        v = [rng.uniform(-1, 1) * 1e-12 for _ in range(n)]
+    elif cls == "huge":
+        v = [rng.uniform(-1, 1) * 1e9 for _ in range(n)]
+    else:
+        # unit quaternions (as well as double arithmetic allows) / scaled off the unit sphere by 1e-9 .. 1e-3
+        v = [rng.uniform(-2, 2) for _ in range(n)]
+        for a in qadr:
+            q = [rng.gauss(0, 1) for _ in range(4)]
+            nr = math.sqrt(sum(x * x for x in q)) or 1.0
+            sc = 1.0 if cls == "unit" else 1.0 + rng.choice([-1, 1]) * rng.choice([1e-9, 1e-6, 1e-3])
+            if a + 4 <= n:
+                v[a:a + 4] = [x / nr * sc for x in q]
+    return [repr(x if x != 0 else 0.0) for x in v]
 
 
 # ------------------------------------------------------------------------------------------ oracle
@@ -387,6 +557,45 @@ class Oracle:
                 return self.fail("copy_ne_get_set", "mj_copyState(sig=%s) differs from mj_getState followed by mj_setState" % w[4], line, out, spec)
             if kv["restA"] != "1":
                 return self.fail("copy_modified_src", "mj_copyState modified its source", line, out, spec)
+        elif op == "krt":
+            idx, nkey = int(w[3]), sizes.get("nkey", 0)
+            if "seterr" in kv:
+                want = "keyRange" if idx >= nkey else "keyNeg" if idx < 0 else None
+                if kv["seterr"] != want:
+                    return self.fail("setkey_error", "mj_setKeyframe(k=%d) with nkey=%d raised %r, expected %s" % (idx, nkey, kv["seterr"], want or "no error"), line, out, spec)
+                return
+            if not 0 <= idx < nkey:
+                return self.fail("setkey_invalid_accepted", "mj_setKeyframe(k=%d) with nkey=%d returned normally" % (idx, nkey), line, out, spec)
+            A, K0, K1, K2 = parse_dump(kv["A"]), parse_dump(kv["K0"]), parse_dump(kv["K1"]), parse_dump(kv["K2"])
+            R, Fr = parse_dump(kv["R"]), parse_dump(kv["F"])
+            arrays = line.split(" ; ", 1)[1].split()
+            rows = dict(zip(arrays, map(int, kv["rows"].split())))
+            keyed = set()
+            for a, f in KEYSPEC:
+                if a not in rows or f not in A:
+                    continue
+                keyed.add(f)
+                n = rows[a]
+                if n != KEY_ROW[a](sizes) or len(K0[a]) != n * nkey:
+                    return self.fail("key_row_size:" + a, "%s holds rows of %d entries (%d in total), documented nkey x %d" % (a, n, len(K0[a]), KEY_ROW[a](sizes)), line, out, spec)
+                row = K1[a][idx * n:(idx + 1) * n]
+                if row != A[f]:
+                    return self.fail("setkey_store:" + a, "mj_setKeyframe(k=%d): %s row = %s, the state's %s = %s" % (idx, a, row[:8], f, A[f][:8]), line, out, spec)
+                if K1[a][:idx * n] + K1[a][(idx + 1) * n:] != K0[a][:idx * n] + K0[a][(idx + 1) * n:]:
+                    return self.fail("setkey_other_rows:" + a, "mj_setKeyframe(k=%d) changed another keyframe's row of %s" % (idx, a), line, out, spec)
+                if K2[a] != K1[a]:
+                    return self.fail("load_modified_model:" + a, "mj_resetDataKeyframe(key=%d) changed %s" % (idx, a), line, out, spec)
+                if R[f] != row:
+                    return self.fail("key_value:" + f, "key (saved at run time by mj_setKeyframe): field %s = %s, expected keyframe array %s"
+                                     % (f, R[f][:8], row[:8]), line, out, spec)
+                if R[f] != A[f]:
+                    return self.fail("key_roundtrip:" + f, "mj_setKeyframe then mj_resetDataKeyframe: field %s = %s, saved state had %s" % (f, R[f][:8], A[f][:8]), line, out, spec)
+            if kv["restA"] != "1":
+                return self.fail("setkey_modified_data", "mj_setKeyframe modified its source mjData", line, out, spec)
+            for f in R:
+                if f not in keyed and R[f] != Fr.get(f):
+                    return self.fail("key_rest:" + f, "mj_resetDataKeyframe(key=%d): field %s (not part of a keyframe) = %s, a fresh mjData has %s"
+                                     % (idx, f, R[f][:8], Fr.get(f, [])[:8]), line, out, spec)
         elif op in ("reset", "key"):
             R, Fr = parse_dump(kv["R"]), parse_dump(kv["F"])
             exp = reset_expect(sizes, mi)
@@ -424,9 +633,9 @@ def run_oracle(ctx, impl, streams, bits):
                     break
             elif op == "minfo":
                 mi = parse_kv(o)
-            elif op == "fill":
+            elif op in ("fill", "put", "keyput"):
                 if o != "ok":
-                    orc.fail("fill", "fill rejected: " + o[:100], l, o, spec)
+                    orc.fail(op, op + " rejected: " + o[:100], l, o, spec)
             else:
                 orc.judge(l, o, spec, sizes, mi)
     return orc
@@ -437,7 +646,7 @@ def run_translator(ctx):
     r = subprocess.run([sys.executable, os.path.join(common.VERIF, "translate", "c26_tables.py")],
                        capture_output=True, text=True, env=dict(os.environ, VERIF_REPO=common.REPO))
     ok = r.returncode == 0
-    ctx.oblige("translator c26_tables (mjtState, size/ptr switches, loop templates, MJDATA_POINTERS)", "translator", ok,
+    ctx.oblige("translator c26_tables (mjtState, size/ptr switches, loop templates, keyframe copy lists, MJDATA/MJMODEL_POINTERS)", "translator", ok,
                (r.stdout + r.stderr)[-1500:])
     if not ok:
         # nothing may be proved about a stale table
@@ -474,11 +683,15 @@ def _run(ctx, tmp):
                 "actuators with none/integrator/filter/filterexact dynamics and history buffers, joint sensors with history, "
                 "connect/weld equalities, userdata, keyframes) plus a minimal and a joint-less model; signatures: 0, all, every "
                 "single bit, every pair, every all-but-one, the named unions, seeded random (thorough: all 2^mjNSTATE on three "
-                "models); a case is distinct by (model, op line); non-trivial = op on a signature with at least one non-empty component")
+                "models); keyframes: compiled ones, rows edited in place and states saved with mj_setKeyframe, value classes "
+                "zero/nonunit/tiny/huge/nearunit/unit/fill (histograms in keyframe_value_classes, keyframe_diff_ops), valid and "
+                "invalid indices; a case is distinct by (model, op line); non-trivial = op on a signature with at least one "
+                "non-empty component / keyframe op")
     info = run_translator(ctx)
     ctx.checker_cmd = ("cd /verif && python3 translate/c26_tables.py && cd lean && lake build MjProof.Props.C26 "
-                       "MjProof.Props.C26Gen && lake env lean Audit/C26.lean")
+                       "MjProof.Props.C26Key MjProof.Props.C26Gen && lake env lean Audit/C26.lean")
     ctx.lean_props(THEOREMS)
+    ctx.lean_props(THEOREMS_KEY, module="MjProof.Props.C26Key")
     drv = None
     if info:
         # Other checks may run translate/regen_all.py (which runs this translator on *their* VERIF_REPO)
@@ -516,7 +729,8 @@ def _run(ctx, tmp):
             ctx.oblige("theorem " + t, "theorem", False, "no generated table: the translator refused the source shape")
     # one audit file listing everything (lean_props rewrites it per call)
     with open(os.path.join(common.LEAN, "Audit", "C26.lean"), "w") as f:
-        f.write("import MjProof.Props.C26\nimport MjProof.Props.C26Gen\n" + "".join("#print axioms %s\n" % t for t in THEOREMS + THEOREMS_GEN))
+        f.write("import MjProof.Props.C26\nimport MjProof.Props.C26Key\nimport MjProof.Props.C26Gen\n"
+                + "".join("#print axioms %s\n" % t for t in THEOREMS + THEOREMS_KEY + THEOREMS_GEN))
     impl = ctx.harness("harness/c/c26_state.c", "c26_state")
     if not impl:
         return
@@ -553,6 +767,11 @@ def _run(ctx, tmp):
             continue
         sizes = {k: int(v) for k, v in (p.split("=") for p in o.split())}
         models.append((kind, s, sizes))
+    # qpos addresses of the quaternions (free/ball joints) of every model, for the keyframe value generators
+    rc, outs, err = ctx.run_lines([impl], ["quats ; %s" % s for _, s, _ in models])
+    for (kind, s, sizes), o in zip(models, outs if rc == 0 and len(outs) == len(models) else []):
+        if o.startswith("quats"):
+            sizes["quats"] = [int(x) for x in o.split()[1:]]
     ctx.extra["models"] = [{"kind": k, "sizes": z} for k, _, z in models]
 
     # ---- T: differential correspondence (Lean model on the generated table vs the real API)
@@ -573,13 +792,13 @@ def _run(ctx, tmp):
     if drv:
         def keyf(l):
             w = l.split()
-            if w and w[0] in ("size", "get", "set", "extract", "copy") and len(w) >= 2:
+            if w and w[0] in ("size", "get", "set", "extract", "copy", "setkey", "loadkey", "keyput") and len(w) >= 2:
                 return l
             return None
         all_lines = []
         for mid, s, sizes, lines in dstreams:
             all_lines += lines
-        bad = ctx.differential("state API (size/get/set/extract/copy) vs Lean model on the generated table, %d models" % len(dstreams),
+        bad = ctx.differential("state + keyframe API (size/get/set/extract/copy, setkey/loadkey/keyput) vs Lean model on the generated tables, %d models" % len(dstreams),
                                [drv], [impl], all_lines, keyf=keyf)
         ctx.extra["differential_ops"] = len(all_lines)
         # real samples
@@ -610,7 +829,7 @@ def _run(ctx, tmp):
         streams = []
         for mid, (kind, s, sizes) in enumerate(models[:3]):
             sg = list(range(1 << nstate))
-            streams.append((s, sizes, oracle_lines(ctx2, mid, s, sizes, info or {"nstate": nstate}, fields, sg, sizes.get("nkey", 0))))
+            streams.append((s, sizes, oracle_lines(ctx2, mid, s, sizes, info or {"nstate": nstate}, fields, sg, sizes.get("nkey", 0), heavy=True)))
         run_oracle(ctx2, impl, streams, bits)
         if len(ctx2.oracle_failures) > n0:
             f = ctx2.oracle_failures[n0]
